@@ -80,6 +80,10 @@ def handle (ts : List String) : String :=
     match run (list (do let l ← nat; let r ← nat; pure ((l, r) : Model.Ranges.Key))) rest with
     | some ks => fmtList fmtNat (Model.Ranges.numberAll [] ks)
     | none => "bad-request"
+  | "numg" :: rest =>
+    match run (list (do let l ← nat; let rs ← list nat; pure (l, rs))) rest with
+    | some gs => fmtList (fmtList fmtNat) (Model.Ranges.numberGroups [] gs)
+    | none => "bad-request"
   | "pair" :: rest =>
     match run (do
         let ct ← bool
